@@ -50,6 +50,8 @@ pub fn install_panic_hook() {
             .location()
             .map(|l| format!("{}:{}", l.file(), l.line()))
             .unwrap_or_default();
+        // self-tests run against a scratch worktree of the library (VERIF_REPO): report locations as if it were /repo
+        let loc = match std::env::var("VERIF_REPO") { Ok(r) if !r.is_empty() && r != "/repo" => loc.replace(&format!("{}/", r.trim_end_matches('/')), "/repo/"), _ => loc };
         let msg = if let Some(s) = info.payload().downcast_ref::<&str>() {
             s.to_string()
         } else if let Some(s) = info.payload().downcast_ref::<String>() {
